@@ -20,6 +20,7 @@ import (
 
 // Resp describes one scripted response.
 type Resp struct {
+	CutAfter int               // > 0: the connection is cut after this many body bytes although the full length was announced
 	Status   int               `json:"status"`
 	Headers  map[string]string `json:"headers,omitempty"`
 	Body     string            `json:"body,omitempty"`
@@ -246,6 +247,8 @@ func (s *Server) handle(host string, w http.ResponseWriter, r *http.Request) {
 				f.Flush()
 			}
 		}
+	} else if resp.CutAfter > 0 && resp.CutAfter < len(wire) {
+		w.Write(wire[:resp.CutAfter]) // net/http closes the connection: fewer bytes than Content-Length
 	} else {
 		w.Write(wire)
 	}
